@@ -289,6 +289,12 @@ def m_e2e(ctx, case):
             return d
 
         def recv_multipart(self, *a, **k):
+            # a receive time-out while the feed pauses between two chunks (RCVTIMEO expiring) takes nothing from the stream:
+            # the run loop has to go on with the bytes it already holds
+            rec["calls"] = rec.get("calls", 0) + 1
+            if case.get("again_every") and rec["calls"] % case["again_every"] == 0 and rec.get("injected", 0) < 200:
+                rec["injected"] = rec.get("injected", 0) + 1
+                raise zmq.error.Again()
             try:
                 parts = self._s.recv_multipart(*a, **k)
             except zmq.error.Again:
@@ -362,6 +368,8 @@ def m_e2e(ctx, case):
             mid = True
     if mid:
         ctx.hit("e2e_midframe_boundary")
+        if rec.get("injected"):
+            ctx.hit("e2e_receive_timeouts_between_chunks")
     ctx.nontrivial(("e2e", kind, stream.hex(), tuple(map(str, rec["sizes"]))))
     ctx.sample({"e2e": kind, "observed_recv_sizes": rec["sizes"][:24], "sent_pieces": [len(p) for p in pieces][:24], "frames": len(exp)})
 
@@ -526,4 +534,5 @@ def cases(ctx):
         stream = mk_stream(fmt, specs)[0]
         n = len(stream)
         cuts = sorted(set(rng.randrange(1, n) for _ in range(rng.choice((2, 4, 8)))))
-        yield "e2e", {"kind": fmt, "specs": specs, "cuts": cuts, "delay": rng.choice((0.02, 0.05))}
+        yield "e2e", {"kind": fmt, "specs": specs, "cuts": cuts, "delay": rng.choice((0.02, 0.05)),
+                      "again_every": rng.choice((0, 2, 2, 3))}
